@@ -283,6 +283,34 @@ func run(s *core.Shard) {
 			s.Nontrivial(c.Split.Key())
 		}
 	}
+	for i := 0; i < 10; i++ {
+		if !s.Mine(n + 218 + i) {
+			continue
+		}
+		if !s.Begin(fmt.Sprintf("grant-key/%d", i)) {
+			continue
+		}
+		c := grantKey(i)
+		if ok, _ := judge(s, c); ok {
+			s.Cover("carrier", c.Carrier)
+			s.Cover("focus", c.Focus)
+			s.Nontrivial(c.Split.Key())
+		}
+	}
+	for i := 0; i < 24; i++ {
+		if !s.Mine(n + 194 + i) {
+			continue
+		}
+		if !s.Begin(fmt.Sprintf("tagged-extends/%d", i)) {
+			continue
+		}
+		c := taggedExtends(i)
+		if ok, _ := judge(s, c); ok {
+			s.Cover("carrier", c.Carrier)
+			s.Cover("focus", c.Focus)
+			s.Nontrivial(c.Split.Key())
+		}
+	}
 	for i := 0; i < 12; i++ {
 		if !s.Mine(n + 182 + i) {
 			continue
